@@ -50,10 +50,17 @@ pub fn rename_operation(
         paths
     };
 
-    // Acquire lock
+    // Acquire lock (a dry run changes nothing: like `plan --dry-run` it takes no lock and does
+    // not create the .renamify directory)
     let renamify_dir = current_dir.join(".renamify");
-    let _lock = LockFile::acquire(&renamify_dir)
-        .context("Failed to acquire lock for renamify operation")?;
+    let _lock = if dry_run {
+        None
+    } else {
+        Some(
+            LockFile::acquire(&renamify_dir)
+                .context("Failed to acquire lock for renamify operation")?,
+        )
+    };
 
     // Build the list of styles to use based on exclude, include, and only options
     let styles = build_styles_list(exclude_styles, include_styles, only_styles);
